@@ -58,8 +58,9 @@ type c19Stage struct {
 }
 
 type c19Case struct {
-	Kind   string     `json:"kind"`   // client | server | item
+	Kind   string     `json:"kind"`   // client | server | item | nested (server message chain around the batch-item chain)
 	Chain  []c19Stage `json:"chain"`
+	IChain []c19Stage `json:"item_chain,omitempty"` // nested: the batch-item middlewares (logged as positions 100, 101, ...)
 	Script []int64    `json:"script"` // answer number -> -1 ok / error code (server and item handlers)
 	Tags   []int64    `json:"tags"`
 	Msgs   []int64    `json:"msgs"` // the request id (client, server) or the ids of the batch items (item)
@@ -409,10 +410,10 @@ func c19NewSpec(cs *c19Case) *c19Spec {
 }
 
 // core is what the scripted innermost handler does, as seen from the chain.
-func (s *c19Spec) core(c c19Ctx, m int64) c19Res {
+func (s *c19Spec) core(kind string, c c19Ctx, m int64) c19Res {
 	poison := m >= 500
 	code := int64(-1)
-	switch s.cs.Kind {
+	switch kind {
 	case "client":
 		if poison {
 			return c19Res{Err: c19i(1)}
@@ -428,11 +429,11 @@ func (s *c19Spec) core(c c19Ctx, m int64) c19Res {
 	}
 	n := s.n
 	s.n++
-	if s.cs.Kind != "client" && int(n) < len(s.cs.Script) {
+	if kind != "client" && int(n) < len(s.cs.Script) {
 		code = s.cs.Script[n]
 	}
 	if code >= 0 {
-		if s.cs.Kind == "server" {
+		if kind == "server" {
 			return c19Res{Resp: &c19Resp{-(1 + m), c19ReasonOf(code)}}
 		}
 		return c19Res{Resp: &c19Resp{-(1 + m), 0}, Err: c19i(code)}
@@ -440,13 +441,30 @@ func (s *c19Spec) core(c c19Ctx, m int64) c19Res {
 	return c19Res{Resp: &c19Resp{n*1000 + m, 0}}
 }
 
-// from is the statement of the property: the stage at position i runs with a continuation that,
-// each time it is invoked, runs the remainder of the chain (from i+1) once, the core innermost.
-func (s *c19Spec) from(i int, c c19Ctx, m int64) c19Res {
-	if i == len(s.cs.Chain) {
-		return s.core(c, m)
+// from is the statement of the property: the stage at position i of `chain` runs with a
+// continuation that, each time it is invoked, runs the remainder of the chain (from i+1)
+// once, the core innermost.
+func (s *c19Spec) from(chain []c19Stage, off, i int, core func(c19Ctx, int64) c19Res, c c19Ctx, m int64) c19Res {
+	if i == len(chain) {
+		return core(c, m)
 	}
-	return c19Interp(s.w, i, &s.cs.Chain[i], func(c2 c19Ctx, m2 int64) c19Res { return s.from(i+1, c2, m2) }, c, m)
+	return c19Interp(s.w, off+i, &chain[i], func(c2 c19Ctx, m2 int64) c19Res { return s.from(chain, off, i+1, core, c2, m2) }, c, m)
+}
+
+// item is the batch item of the response: what the batch-item chain returned for request
+// item m, an error folded into it.
+func (s *c19Spec) item(chain []c19Stage, off int, c c19Ctx, m int64) c19Resp {
+	r := s.from(chain, off, 0, func(c2 c19Ctx, m2 int64) c19Res { return s.core("item", c2, m2) }, c, m)
+	it := c19Resp{-(1 + m), 0}
+	if r.Resp != nil {
+		it = *r.Resp
+	} else if r.Err == nil {
+		r.Err = c19i(100)
+	}
+	if r.Err != nil {
+		it.St = c19ReasonOf(*r.Err)
+	}
+	return it
 }
 
 // c19Outcome is the final observable of one request.
@@ -474,10 +492,21 @@ func (s *c19Spec) run() (out c19Outcome) {
 	c0 := c19Ctx{Tags: append([]int64(nil), cs.Tags...)}
 	switch cs.Kind {
 	case "client":
-		out.Res = s.from(0, c0, cs.Msgs[0])
-	case "server":
+		out.Res = s.from(cs.Chain, 0, 0, func(c c19Ctx, m int64) c19Res { return s.core("client", c, m) }, c0, cs.Msgs[0])
+	case "server", "nested":
 		c0.Hdr = c19i(cs.Msgs[0])
-		r := s.from(0, c0, cs.Msgs[0])
+		core := func(c c19Ctx, m int64) c19Res { return s.core("server", c, m) }
+		if cs.Kind == "nested" {
+			// handleRequest with batch-item middlewares installed: the (single) item goes through their chain
+			core = func(c c19Ctx, m int64) c19Res {
+				if m >= 500 {
+					return c19Res{Err: c19i(4)}
+				}
+				it := s.item(cs.IChain, 100, c, m)
+				return c19Res{Resp: &it}
+			}
+		}
+		r := s.from(cs.Chain, 0, 0, core, c0, cs.Msgs[0])
 		if r.Err != nil {
 			out.Final = &c19Resp{-(1 + cs.Msgs[0]), c19ReasonOf(*r.Err)}
 		} else {
@@ -486,18 +515,7 @@ func (s *c19Spec) run() (out c19Outcome) {
 	default:
 		c0.Hdr = c19i(0)
 		for _, m := range cs.Msgs {
-			r := s.from(0, c0, m)
-			// the batch item of the response: what the chain returned, an error folded into it
-			it := c19Resp{-(1 + m), 0}
-			if r.Resp != nil {
-				it = *r.Resp
-			} else if r.Err == nil {
-				r.Err = c19i(100)
-			}
-			if r.Err != nil {
-				it.St = c19ReasonOf(*r.Err)
-			}
-			out.Items = append(out.Items, it)
+			out.Items = append(out.Items, s.item(cs.Chain, 0, c0, m))
 		}
 	}
 	return out
@@ -642,6 +660,9 @@ func c19RespObs(resp *kmip.ResponseMessage, base int64) *c19Resp {
 	if len(resp.BatchItem) == 0 {
 		return &c19Resp{-(1 + corr), -1}
 	}
+	if v := c19UnBE(resp.BatchItem[0].UniqueBatchItemID); v >= 0 {
+		corr = v - base
+	}
 	r := c19ItemObs(&resp.BatchItem[0], corr)
 	return &r
 }
@@ -767,11 +788,11 @@ func c19ServerMws(chain []c19Stage) []kmipserver.Middleware {
 	return l
 }
 
-func c19ItemMws(chain []c19Stage) []kmipserver.BatchItemMiddleware {
+func c19ItemMws(chain []c19Stage, off int) []kmipserver.BatchItemMiddleware {
 	w := c19ItemWorld()
 	var l []kmipserver.BatchItemMiddleware
 	for i := range chain {
-		idx, sp := i, &chain[i]
+		idx, sp := off+i, &chain[i]
 		l = append(l, func(next kmipserver.BatchItemNext, ctx context.Context, bi *kmip.RequestBatchItem) (*kmip.ResponseBatchItem, error) {
 			z := c19Interp(w, idx, sp, func(c context.Context, m *kmip.RequestBatchItem) c19ItemZ {
 				p, e := next(c, m)
@@ -858,7 +879,12 @@ func c19NewSut(cs *c19Case) (*c19Sut, error) {
 		s.exec.Route(kmip.OperationActivate, c19Handler("server"))
 	case "item":
 		s.exec = kmipserver.NewBatchExecutor()
-		s.exec.BatchItemUse(c19ItemMws(cs.Chain)...)
+		s.exec.BatchItemUse(c19ItemMws(cs.Chain, 0)...)
+		s.exec.Route(kmip.OperationActivate, c19Handler("item"))
+	case "nested":
+		s.exec = kmipserver.NewBatchExecutor()
+		s.exec.Use(c19ServerMws(cs.Chain)...)
+		s.exec.BatchItemUse(c19ItemMws(cs.IChain, 100)...)
 		s.exec.Route(kmip.OperationActivate, c19Handler("item"))
 	default:
 		return nil, fmt.Errorf("unknown kind %q", cs.Kind)
@@ -893,7 +919,7 @@ func (s *c19Sut) request(cs *c19Case) (out c19Outcome) {
 	case "client":
 		resp, err := s.client.Roundtrip(ctx, c19MkMsg("client", rec.base+cs.Msgs[0]))
 		out.Res = c19Res{Resp: c19RespObs(resp, rec.base), Err: c19ErrObs(err)}
-	case "server":
+	case "server", "nested":
 		resp := s.exec.HandleRequest(ctx, c19MkMsg("server", rec.base+cs.Msgs[0]))
 		out.Final = c19RespObs(resp, rec.base)
 	case "item":
@@ -958,7 +984,7 @@ func c19FinalEq(kind string, a, b *c19Outcome) bool {
 	switch kind {
 	case "client":
 		return c19ResEq(a.Res, b.Res)
-	case "server":
+	case "server", "nested":
 		return (a.Final == nil) == (b.Final == nil) && (a.Final == nil || *a.Final == *b.Final)
 	}
 	if len(a.Items) != len(b.Items) {
@@ -979,7 +1005,7 @@ func (o *c19Outcome) finalString(kind string) string {
 	switch kind {
 	case "client":
 		return o.Res.String()
-	case "server":
+	case "server", "nested":
 		if o.Final == nil {
 			return "nil response"
 		}
@@ -1151,13 +1177,21 @@ func c19Describe(cs *c19Case) string {
 		}
 		l = append(l, d)
 	}
-	return cs.Kind + ":" + strings.Join(l, ",")
+	d := cs.Kind + ":" + strings.Join(l, ",")
+	if cs.Kind == "nested" {
+		var li []string
+		for _, s := range cs.IChain {
+			li = append(li, fmt.Sprintf("%dcalls/%s", len(s.Calls), s.Ret))
+		}
+		d += " items:" + strings.Join(li, ",")
+	}
+	return d
 }
 
 // ------------------------------------------------------------------ the driver
 
 func driveC19(c *h.Ctx) error {
-	c.Rule("cases = (chain kind in {client Roundtrip, server HandleRequest, server batch-item chain}) x (chain of stage programs) x (handler script) ; " +
+	c.Rule("cases = (chain kind in {client Roundtrip, server HandleRequest, server batch-item chain, nested = HandleRequest chain around the batch-item chain}) x (chain of stage programs) x (handler script) ; " +
 		"exhaustive: every chain of length 0..3 (thorough: 0..4 over the first 8 letters) over a 12-letter stage alphabet {pass, short-circuit, short-circuit with (nil,err), call next twice, " +
 		"three calls with substituted messages/contexts returning the first result, substitute message+context, retry-until-ok starting with a poisoned message, replace result by error, " +
 		"return response and error, return (nil,nil) after passing context.Background(), panic after the call, stateful short-circuit on re-entry}; " +
@@ -1216,14 +1250,39 @@ func driveC19(c *h.Ctx) error {
 				rec3(nil, false)
 			}
 		}
+		// nested: message middlewares around batch-item middlewares (one batch item)
+		{
+			count := 0
+			add := func(mc, ic []c19Stage) {
+				cases = append(cases, c19Case{Kind: "nested", Chain: mc, IChain: ic, Script: c19Scripts("nested", count), Tags: []int64{9}, Msgs: []int64{1}, Origin: "exhaustive"})
+				count++
+			}
+			for a := 0; a < c19Letters; a++ {
+				for b := 0; b < c19Letters; b++ {
+					add([]c19Stage{c19Letter(a, 0)}, []c19Stage{c19Letter(b, 0)})
+				}
+			}
+			sub := []int{0, 3, 4, 5, 6, 7}
+			for _, a := range sub {
+				for _, b := range sub {
+					for _, d := range sub {
+						add([]c19Stage{c19Letter(a, 0), c19Letter(b, 1)}, []c19Stage{c19Letter(d, 0)})
+						add([]c19Stage{c19Letter(a, 0)}, []c19Stage{c19Letter(b, 0), c19Letter(d, 1)})
+					}
+				}
+			}
+		}
 		c.Exhaustive(true)
 		// random longer chains
 		nrand := c.Pick(150, 1500)
-		for ki, kind := range []string{"client", "server", "item"} {
+		for ki, kind := range []string{"client", "server", "item", "nested"} {
 			for j := 0; j < nrand; j++ {
 				r := c.Rng.Fork(uint64(1000000*(ki+1) + j))
 				for try := 0; ; try++ {
 					ln := 4 + r.Intn(5)
+					if kind == "nested" {
+						ln = 1 + r.Intn(4)
+					}
 					cs := c19Case{Kind: kind, Tags: []int64{int64(r.Intn(5))}, Msgs: []int64{int64(1 + r.Intn(400))}, Origin: "random", Script: []int64{}, Chain: []c19Stage{}}
 					if r.Chance(1, 6) {
 						cs.Tags = []int64{}
@@ -1238,6 +1297,11 @@ func driveC19(c *h.Ctx) error {
 					}
 					for p := 0; p < ln; p++ {
 						cs.Chain = append(cs.Chain, c19RandStage(r, p))
+					}
+					if kind == "nested" {
+						for p, k := 0, 1+r.Intn(4); p < k; p++ {
+							cs.IChain = append(cs.IChain, c19RandStage(r, 10+p))
+						}
 					}
 					if kind != "client" {
 						for k := r.Intn(6); k > 0; k-- {
@@ -1256,7 +1320,7 @@ func driveC19(c *h.Ctx) error {
 		}
 		// concurrent requests over a shared chain
 		nconc := c.Pick(12, 100)
-		for ki, kind := range []string{"client", "server", "item"} {
+		for ki, kind := range []string{"client", "server", "item", "nested"} {
 			for j := 0; j < nconc; j++ {
 				r := c.Rng.Fork(uint64(9000000*(ki+1) + j))
 				cs := c19Case{Kind: kind, Tags: []int64{7}, Msgs: []int64{int64(1 + r.Intn(400))}, Origin: "concurrent", Script: []int64{}, Chain: []c19Stage{}, Conc: 4 + r.Intn(5)}
@@ -1277,6 +1341,15 @@ func driveC19(c *h.Ctx) error {
 				if kind != "client" {
 					cs.Script = []int64{-1, 3}
 				}
+				if kind == "nested" {
+					for p, k := 0, 1+r.Intn(2); p < k; p++ {
+						st := c19RandStage(r, 10+p)
+						if st.Ret == "panic" {
+							st.Ret = "first"
+						}
+						cs.IChain = append(cs.IChain, st)
+					}
+				}
 				cases = append(cases, cs)
 			}
 		}
@@ -1293,7 +1366,7 @@ func driveC19(c *h.Ctx) error {
 		c.Count("kind:" + cs.Kind)
 		c.Count("origin:" + cs.Origin)
 		c.Count(fmt.Sprintf("length:%d", len(cs.Chain)))
-		for _, s := range cs.Chain {
+		for _, s := range append(append([]c19Stage{}, cs.Chain...), cs.IChain...) {
 			c.Count(fmt.Sprintf("stage-calls:%d", len(s.Calls)))
 			c.Count("stage-ret:" + s.Ret)
 		}
@@ -1335,7 +1408,7 @@ func driveC19(c *h.Ctx) error {
 				}
 				table = "client"
 				row = fmt.Sprintf("(%s, %s, %s, (%s, %s, %s))", c19ChainCoq(cs.Chain), h.ZList(cs.Tags), h.Z(cs.Msgs[0]), o, h.Z(got.N), tr)
-			case "server":
+			case "server", "nested":
 				o := "Panic"
 				if !got.Panicked {
 					if got.Final == nil {
@@ -1344,8 +1417,12 @@ func driveC19(c *h.Ctx) error {
 						o = fmt.Sprintf("Ok (Some (%s,%s))", h.Z(got.Final.ID), h.Z(got.Final.St))
 					}
 				}
-				table = "server"
-				row = fmt.Sprintf("(%s, %s, %s, %s, (%s, %s, %s))", c19ChainCoq(cs.Chain), c19ScriptCoq(cs.Script), h.ZList(cs.Tags), h.Z(cs.Msgs[0]), o, h.Z(got.N), tr)
+				table = cs.Kind
+				chains := c19ChainCoq(cs.Chain)
+				if cs.Kind == "nested" {
+					chains += ", " + c19ChainCoq(cs.IChain)
+				}
+				row = fmt.Sprintf("(%s, %s, %s, %s, (%s, %s, %s))", chains, c19ScriptCoq(cs.Script), h.ZList(cs.Tags), h.Z(cs.Msgs[0]), o, h.Z(got.N), tr)
 			default:
 				o := "Panic"
 				if !got.Panicked {
@@ -1377,7 +1454,7 @@ Definition pn (i : Z) : cevent := EvPanic (Z.to_nat i).
 Definition co (tags : list Z) (hdr : option Z) (m : Z) : cevent := EvCore (tags, hdr) m.
 `)
 	total := 0
-	for _, t := range []struct{ name, ty, ok string }{{"client", "row_client", "row_client_ok"}, {"server", "row_server", "row_server_ok"}, {"items", "row_items", "row_items_ok"}} {
+	for _, t := range []struct{ name, ty, ok string }{{"client", "row_client", "row_client_ok"}, {"server", "row_server", "row_server_ok"}, {"items", "row_items", "row_items_ok"}, {"nested", "row_nested", "row_nested_ok"}} {
 		defs, expr := h.Chunk("rows_"+t.name, t.ty, rows[t.name], 200)
 		sb.WriteString(defs)
 		fmt.Fprintf(&sb, "Definition mism_%s := Eval vm_compute in bad_idx (%s %s) %s 0.\nPrint mism_%s.\n", t.name, t.ok, mode, expr, t.name)
